@@ -2,8 +2,9 @@
 
 PROPS = {
     'C01': {
-        'harnesses': ['c01::h_tokeniser', 'c01::h_cmp', 'c01::h_glue'],
-        'covers': {'c01::h_tokeniser': ['tokenised-something'], 'c01::h_cmp': ['true-verdict', 'false-verdict']},
+        'harnesses': ['c01::h_tokeniser', 'c01::h_cmp', 'c01::h_glue', 'c01::h_token_strings'],
+        'covers': {'c01::h_tokeniser': ['tokenised-something'], 'c01::h_cmp': ['true-verdict', 'false-verdict'],
+                   'c01::h_token_strings': ['long-version', 'has-revision']},
     },
     'C02': {
         'harnesses': ['c02::h_compile', 'c02::h_match'],
